@@ -119,7 +119,7 @@ func (w *world) buildBase(libSeed int64) error {
 	}
 	// the addresses of the library contracts are fixed by (sender 0, nonce): compute them first so
 	// that code can refer to other library contracts
-	nFixed := 17
+	nFixed := 22
 	nRandom := 8
 	addrOf := func(n int) common.Address {
 		return common.Address(crypto.CreateAddress(ethcomm.Address(w.addrs[0]), uint64(n)))
@@ -142,6 +142,11 @@ func (w *world) buildBase(libSeed int64) error {
 		{"forward_to_fee", codeForward(feeReceiver, false)},
 		{"forward_to_sender", codeForward(w.addrs[1], false)},
 		{"call_sd_self_revert", codeForward(addrOf(5), true)},
+		{"delegate_sd_self", codeDelegate(addrOf(5))},   // SELFDESTRUCT(ADDRESS) in the caller's context
+		{"callcode_sd_other", codeCallCode(addrOf(4))},  // SELFDESTRUCT(plain0) in the caller's context
+		{"static_sd_self", codeStatic(addrOf(5))},       // write protection
+		{"create2_child", codeCreate2Child()},
+		{"delegate_forward", codeDelegate(addrOf(7))},   // CALL with CALLVALUE from the caller's context
 	}
 	if len(fixed) != nFixed {
 		panic("library size")
@@ -293,6 +298,17 @@ func (w *world) runScenario(sc *Scenario) {
 			created = append(created, a)
 			w.know(a)
 		}
+		// an affordable gas amount in the billions would keep a looping contract busy for hours
+		eff := new(big.Int).SetUint64(spec.GasLimit)
+		if ti.price.Sign() > 0 {
+			if q := new(big.Int).Div(pre.bal(ti.from), ti.price); q.Cmp(eff) < 0 {
+				eff = q
+			}
+		}
+		if eff.Cmp(big.NewInt(5000000)) > 0 && (ti.to == nil || pre.hasCode(*ti.to)) {
+			w.c.Count("tx:skipped-unbounded-gas")
+			continue
+		}
 		if _, err := ontTx(ti.tx); err != nil {
 			// never reaches the handler in a node: the Ontology transaction decoder refuses it
 			w.c.Count("tx:decoder-rejected")
@@ -322,7 +338,7 @@ func (g *generator) pick(xs ...string) string { return xs[g.r.Intn(len(xs))] }
 func (g *generator) tx(sc *Scenario) TxSpec {
 	r := g.r
 	t := TxSpec{From: r.Intn(nSenders)}
-	if r.Intn(100) < 55 {
+	if r.Intn(100) < 70 {
 		t.From = r.Intn(3) // the funded ones more often
 	}
 	switch r.Intn(20) {
